@@ -174,12 +174,13 @@ def run_history(ctx, seed):
             steps_log.append(('overload-prelude', thr, pending))
             info['overload_prelude'] = True
             if rng.random() < 0.7:
-                burst = rng.randint(1, 5)
+                burst = rng.randint(1, 8)
+                saved_preempt, pw.ch.p_preempt = pw.ch.p_preempt, rng.choice([0.3, 0.5])     # borrowers get parked at lock acquisitions more often
                 ps = pw.pools()
                 if ps and rng.random() < 0.6:
                     # concurrent borrowers on threads of their own (an application calling the session from several threads): each can be
                     # parked at a lock while the replacement completes
-                    for _ in range(rng.randint(2, 3)):
+                    for _ in range(rng.randint(2, 4)):
                         u = new_uid()
                         kinds[u] = 'direct-rows'
                         world.spawn(lambda u=u, p=ps[0]: pw.direct_request(p, u, 'rows'), name='borrower-%d' % u)
@@ -192,6 +193,9 @@ def run_history(ctx, seed):
                     if rng.random() < 0.3:
                         world.settle(advance=False)
                 steps_log.append(('burst', burst))
+                if rng.random() < 0.5:
+                    world.settle(advance=False)
+                pw.ch.p_preempt = saved_preempt
                 if rng.random() < 0.6:
                     # the replacement is in service, the old connection (if something is still pending on it) waits in the trash: now the live
                     # connection fails while its own replacement cannot complete at once, and the pool is shut down in one of the next steps
